@@ -233,15 +233,15 @@ deriving BEq, DecidableEq, Inhabited
 def selfOf (k : SrcKind) (f : FieldE) : Toks :=
   match k with
   | .struct_ => paren ["self", ".", f.member]
-  | .enum_ => paren ["*", f.makeIdent "_self"]
+  | .enum_ => paren ["*", f.makeIdent "__self"]
 def thisOf (k : SrcKind) (f : FieldE) : Toks :=
   match k with
-  | .struct_ => paren ["this", ".", f.member]
-  | .enum_ => paren ["*", f.makeIdent "_this"]
+  | .struct_ => paren ["__this", ".", f.member]
+  | .enum_ => paren ["*", f.makeIdent "__this"]
 def otherOf (k : SrcKind) (f : FieldE) : Toks :=
   match k with
-  | .struct_ => paren ["other", ".", f.member]
-  | .enum_ => paren ["*", f.makeIdent "_other"]
+  | .struct_ => paren ["__other", ".", f.member]
+  | .enum_ => paren ["*", f.makeIdent "__other"]
 
 def optOrdering : Toks := absPath ["core", "option", "Option"] ++ angle (absPath ["core", "cmp", "Ordering"])
 def ordering : Toks := absPath ["core", "cmp", "Ordering"]
@@ -270,30 +270,30 @@ def peExpr (k : SrcKind) (cf : CmpField) : Toks :=
   match cf.sel with
   | .by_ .partialOrd e =>
     helperFnBlock id helperT
-      [["this", ":"] ++ refT, ["other", ":"] ++ refT,
-       ["partial_cmp", ":", "impl"] ++ coreFn ++ paren (refT ++ "," :: refT) ++ "->" :: optOrdering]
+      [["__this", ":"] ++ refT, ["__other", ":"] ++ refT,
+       ["__partial_cmp", ":", "impl"] ++ coreFn ++ paren (refT ++ "," :: refT) ++ "->" :: optOrdering]
       ["->", "bool"]
-      (["partial_cmp"] ++ paren ["this", ",", "other"] ++ "==" :: someEqual)
+      (["__partial_cmp"] ++ paren ["__this", ",", "__other"] ++ "==" :: someEqual)
       (args e)
   | .by_ .ord e =>
     helperFnBlock id helperT
-      [["this", ":"] ++ refT, ["other", ":"] ++ refT,
-       ["cmp", ":", "impl"] ++ coreFn ++ paren (refT ++ "," :: refT) ++ "->" :: ordering]
+      [["__this", ":"] ++ refT, ["__other", ":"] ++ refT,
+       ["__cmp", ":", "impl"] ++ coreFn ++ paren (refT ++ "," :: refT) ++ "->" :: ordering]
       ["->", "bool"]
-      (["cmp"] ++ paren ["this", ",", "other"] ++ "==" :: orderingEqual)
+      (["__cmp"] ++ paren ["__this", ",", "__other"] ++ "==" :: orderingEqual)
       (args e)
   | .by_ _ e =>
     helperFnBlock id helperT
-      [["this", ":"] ++ refT, ["other", ":"] ++ refT,
-       ["eq", ":", "impl"] ++ coreFn ++ paren (refT ++ "," :: refT) ++ ["->", "bool"]]
+      [["__this", ":"] ++ refT, ["__other", ":"] ++ refT,
+       ["__eq", ":", "impl"] ++ coreFn ++ paren (refT ++ "," :: refT) ++ ["->", "bool"]]
       ["->", "bool"]
-      (["eq"] ++ paren ["this", ",", "other"])
+      (["__eq"] ++ paren ["__this", ",", "__other"])
       (args e)
   | .key _ t => ufcs2 ["core", "cmp", "PartialEq", "eq"] (applyTemplate t this) (applyTemplate t other)
   | .dflt => ufcs2 ["core", "cmp", "PartialEq", "eq"] this other
 
 def eqChecker (this : Toks) : Toks :=
-  brace (["fn", "_eq", "<", "T", ":"] ++ absPath ["core", "cmp", "Eq"] ++ ["+", "?"] ++ absPath ["core", "marker", "Sized"] ++ [">"] ++ paren ["_this", ":", "&", "T"] ++ brace [] ++
+  brace (["fn", "_eq", "<", "T", ":"] ++ absPath ["core", "cmp", "Eq"] ++ ["+", "?"] ++ absPath ["core", "marker", "Sized"] ++ [">"] ++ paren ["__this", ":", "&", "T"] ++ brace [] ++
     "_eq" :: paren ("&" :: paren this))
 
 def eqExpr (k : SrcKind) (cf : CmpField) : Toks :=
@@ -312,17 +312,17 @@ def poExpr (k : SrcKind) (cf : CmpField) : Toks :=
   let e0 := match cf.sel with
     | .by_ .ord e =>
       helperFnBlock id helperT
-        [["this", ":"] ++ refT, ["other", ":"] ++ refT,
-         ["cmp", ":", "impl"] ++ coreFn ++ paren (refT ++ "," :: refT) ++ "->" :: ordering]
+        [["__this", ":"] ++ refT, ["__other", ":"] ++ refT,
+         ["__cmp", ":", "impl"] ++ coreFn ++ paren (refT ++ "," :: refT) ++ "->" :: ordering]
         ("->" :: optOrdering)
-        (absPath ["core", "option", "Option", "Some"] ++ paren ("cmp" :: paren ["this", ",", "other"]))
+        (absPath ["core", "option", "Option", "Some"] ++ paren ("__cmp" :: paren ["__this", ",", "__other"]))
         (args e)
     | .by_ _ e =>
       helperFnBlock id helperT
-        [["this", ":"] ++ refT, ["other", ":"] ++ refT,
-         ["partial_cmp", ":", "impl"] ++ coreFn ++ paren (refT ++ "," :: refT) ++ "->" :: optOrdering]
+        [["__this", ":"] ++ refT, ["__other", ":"] ++ refT,
+         ["__partial_cmp", ":", "impl"] ++ coreFn ++ paren (refT ++ "," :: refT) ++ "->" :: optOrdering]
         ("->" :: optOrdering)
-        ("partial_cmp" :: paren ["this", ",", "other"])
+        ("__partial_cmp" :: paren ["__this", ",", "__other"])
         (args e)
     | .key _ t => ufcs2 ["core", "cmp", "PartialOrd", "partial_cmp"] (applyTemplate t this) (applyTemplate t other)
     | .dflt => ufcs2 ["core", "cmp", "PartialOrd", "partial_cmp"] this other
@@ -338,17 +338,17 @@ def ordExpr (k : SrcKind) (cf : CmpField) : Toks :=
   let e0 := match cf.sel with
     | .by_ _ e =>
       helperFnBlock id helperT
-        [["this", ":"] ++ refT, ["other", ":"] ++ refT,
-         ["cmp", ":", "impl"] ++ coreFn ++ paren (refT ++ "," :: refT) ++ "->" :: ordering]
+        [["__this", ":"] ++ refT, ["__other", ":"] ++ refT,
+         ["__cmp", ":", "impl"] ++ coreFn ++ paren (refT ++ "," :: refT) ++ "->" :: ordering]
         ("->" :: ordering)
-        ("cmp" :: paren ["this", ",", "other"])
+        ("__cmp" :: paren ["__this", ",", "__other"])
         ["&" :: this, "&" :: other, e]
     | .key _ t => ufcs2 ["core", "cmp", "Ord", "cmp"] (applyTemplate t this) (applyTemplate t other)
     | .dflt => ufcs2 ["core", "cmp", "Ord", "cmp"] this other
   if cf.rev then absPath ["core", "cmp", "Ordering", "reverse"] ++ paren e0 else e0
 
 def hashStmt (x : Toks) : Toks :=
-  absPath ["core", "hash", "Hash", "hash"] ++ paren ("&" :: paren x ++ [",", "state"]) ++ [";"]
+  absPath ["core", "hash", "Hash", "hash"] ++ paren ("&" :: paren x ++ [",", "__state"]) ++ [";"]
 
 def hashExpr (k : SrcKind) (cf : CmpField) : Toks :=
   let f := cf.f
@@ -357,25 +357,25 @@ def hashExpr (k : SrcKind) (cf : CmpField) : Toks :=
   match cf.sel with
   | .by_ _ e =>
     helperFnBlock id (angle (["__T", ":", "?"] ++ absPath ["core", "marker", "Sized"] ++ "," :: "__H" :: ":" :: absPath ["core", "hash", "Hasher"]))
-      [["this", ":"] ++ refT, ["state", ":", "&", "mut", "__H"],
-       ["hash", ":", "impl"] ++ coreFn ++ paren (refT ++ [",", "&", "mut", "__H"])]
+      [["__this", ":"] ++ refT, ["__state", ":", "&", "mut", "__H"],
+       ["__hash", ":", "impl"] ++ coreFn ++ paren (refT ++ [",", "&", "mut", "__H"])]
       []
-      ("hash" :: paren ["this", ",", "state"])
-      ["&" :: this, ["state"], e]
+      ("__hash" :: paren ["__this", ",", "__state"])
+      ["&" :: this, ["__state"], e]
   | .key _ t => hashStmt (applyTemplate t this)
   | .dflt => hashStmt this
 
 /-- `build_to_index_fn` -/
 def toIndexFn (vs : List VariantE) : Toks :=
-  ["let", "to_index", "=", "|", "this", ":", "&", "Self", "|", "->", "usize"] ++
-    brace ("match" :: "this" :: brace (
+  ["let", "__to_index", "=", "|", "__this", ":", "&", "Self", "|", "->", "usize"] ++
+    brace ("match" :: "__this" :: brace (
       (vs.zipIdx.flatMap fun (v, i) => paren v.makePatWildcard ++ ["=>", toString i ++ "usize", ","]) ++
       ("_" :: "=>" :: absPath ["core", "unreachable"] ++ ["!", "(", ")", ","]))) ++ [";"]
 
 def poStep (e : Toks) : Toks :=
-  "match" :: e ++ brace (someEqual ++ ["=>", "{", "}", "o", "=>", "return", "o", ","])
+  "match" :: e ++ brace (someEqual ++ ["=>", "{", "}", "__o", "=>", "return", "__o", ","])
 def ordStep (e : Toks) : Toks :=
-  "match" :: e ++ brace (orderingEqual ++ ["=>", "{", "}", "o", "=>", "return", "o", ","])
+  "match" :: e ++ brace (orderingEqual ++ ["=>", "{", "}", "__o", "=>", "return", "__o", ","])
 
 /-- the body of `build_from_fields` for one field list -/
 def cmpFieldsBody (op : CmpOp) (k : SrcKind) (fs : List CmpField) : Toks :=
@@ -394,26 +394,26 @@ def CmpImpl.inner (c : CmpImpl) : Toks :=
   | .struct_ fs => cmpFieldsBody c.op .struct_ fs
   | .enum_ vs =>
     let arms2 : Toks := vs.flatMap fun (v, fs) =>
-      paren (v.makePat "_self" ++ "," :: v.makePat "_other") ++ "=>" :: brace (cmpFieldsBody c.op .enum_ fs)
+      paren (v.makePat "__self" ++ "," :: v.makePat "__other") ++ "=>" :: brace (cmpFieldsBody c.op .enum_ fs)
     match c.op with
-    | .partialEq => "match" :: paren ["self", ",", "other"] ++ brace (arms2 ++ ["_", "=>", "false", ","])
+    | .partialEq => "match" :: paren ["self", ",", "__other"] ++ brace (arms2 ++ ["_", "=>", "false", ","])
     | .eq =>
-      "match" :: "this" :: brace (
-        (vs.flatMap fun (v, fs) => v.makePatWith "_this" [c.name] ++ "=>" :: brace (cmpFieldsBody .eq .enum_ fs)) ++
+      "match" :: "__this" :: brace (
+        (vs.flatMap fun (v, fs) => v.makePatWith "__this" [c.name] ++ "=>" :: brace (cmpFieldsBody .eq .enum_ fs)) ++
         ["_", "=>", "{", "}"])
     | .partialOrd =>
-      "match" :: paren ["self", ",", "other"] ++ brace (arms2 ++
-        paren ["this", ",", "other"] ++ "=>" :: brace (toIndexFn (vs.map (·.1)) ++
+      "match" :: paren ["self", ",", "__other"] ++ brace (arms2 ++
+        paren ["__this", ",", "__other"] ++ "=>" :: brace (toIndexFn (vs.map (·.1)) ++
           absPath ["core", "cmp", "PartialOrd", "partial_cmp"] ++
-            paren (["&", "to_index"] ++ paren ["this"] ++ [",", "&", "to_index"] ++ paren ["other"])) ++ [","])
+            paren (["&", "__to_index"] ++ paren ["__this"] ++ [",", "&", "__to_index"] ++ paren ["__other"])) ++ [","])
     | .ord =>
-      "match" :: paren ["self", ",", "other"] ++ brace (arms2 ++
-        paren ["this", ",", "other"] ++ "=>" :: brace (toIndexFn (vs.map (·.1)) ++
+      "match" :: paren ["self", ",", "__other"] ++ brace (arms2 ++
+        paren ["__this", ",", "__other"] ++ "=>" :: brace (toIndexFn (vs.map (·.1)) ++
           absPath ["core", "cmp", "Ord", "cmp"] ++
-            paren (["&", "to_index"] ++ paren ["this"] ++ [",", "&", "to_index"] ++ paren ["other"])) ++ [","])
+            paren (["&", "__to_index"] ++ paren ["__this"] ++ [",", "&", "__to_index"] ++ paren ["__other"])) ++ [","])
     | .hash =>
       "match" :: "self" :: brace (
-        (vs.flatMap fun (v, fs) => v.makePat "_self" ++ "=>" :: brace (cmpFieldsBody .hash .enum_ fs)) ++
+        (vs.flatMap fun (v, fs) => v.makePat "__self" ++ "=>" :: brace (cmpFieldsBody .hash .enum_ fs)) ++
         ("_" :: "=>" :: absPath ["core", "unreachable"] ++ ["!", "(", ")", ","]))
 
 def cmpAttrs : Toks :=
@@ -431,17 +431,17 @@ def CmpImpl.render (c : CmpImpl) : List Toks :=
     cmpAttrs ++ "impl" :: implG ++ trait_ ++ "for" :: c.thisTy ++ wheres ++ brace body
   match c.op with
   | .partialEq =>
-    [head (["fn", "eq"] ++ paren ["&", "self", ",", "other", ":", "&", "Self"] ++ ["->", "bool"] ++ brace c.inner)]
+    [head (["fn", "eq"] ++ paren ["&", "self", ",", "__other", ":", "&", "Self"] ++ ["->", "bool"] ++ brace c.inner)]
   | .partialOrd =>
-    [head (["fn", "partial_cmp"] ++ paren ["&", "self", ",", "other", ":", "&", "Self"] ++ "->" :: optOrdering ++ brace c.inner)]
+    [head (["fn", "partial_cmp"] ++ paren ["&", "self", ",", "__other", ":", "&", "Self"] ++ "->" :: optOrdering ++ brace c.inner)]
   | .ord =>
-    [head (["fn", "cmp"] ++ paren ["&", "self", ",", "other", ":", "&", "Self"] ++ "->" :: ordering ++ brace c.inner)]
+    [head (["fn", "cmp"] ++ paren ["&", "self", ",", "__other", ":", "&", "Self"] ++ "->" :: ordering ++ brace c.inner)]
   | .hash =>
     [head (["fn", "hash"] ++ angle ("__H" :: ":" :: absPath ["core", "hash", "Hasher"]) ++
-      paren ["&", "self", ",", "state", ":", "&", "mut", "__H"] ++ brace c.inner)]
+      paren ["&", "self", ",", "__state", ":", "&", "mut", "__H"] ++ brace c.inner)]
   | .eq =>
     [head [],
      ["const", "_", ":", "(", ")", "="] ++ brace (cmpAllowAttrs ++ "fn" :: "_f" :: implG ++
-        paren ("this" :: ":" :: "&" :: c.thisTy) ++ wheres ++ brace c.inner) ++ [";"]]
+        paren ("__this" :: ":" :: "&" :: c.thisTy) ++ wheres ++ brace c.inner) ++ [";"]]
 
 end DX
